@@ -1,5 +1,5 @@
 """C05 - bound names and data-dependent predicates see the values parsed earlier."""
-from contracts import bind, lists
+from contracts import bind, lists, spellings
 from pyvc.report import Report
 from .common import run_fragments
 
@@ -20,6 +20,7 @@ def run(tier, seed):
     wiring.class_compile_obligations(rep, tier)
     from contracts import segments
     segments.class_body_closure(rep, tier)
+    run_fragments(rep, [spellings.SpelledApplyC(), spellings.SpelledWhereC()], tier)      # `a |> f`, `f <| a`, `e where p` as the real front end builds them
     wiring.ref_resolution_obligations(rep, tier)
     wiring.frontend_definition_obligations(rep, tier)
     rep.assumptions.append('frame clause of the child contract: a child does not change user-visible names that are in scope at its entry '
